@@ -15,7 +15,7 @@
 (* Lines are independent observations given the current instance, so all     *)
 (* unexplained lines are collected (variable bad).                           *)
 EXTENDS PoissonLL, TraceLib
-VARIABLES l, sys, I, m, f, vs, bad
+VARIABLES l, sys, I, m, f, vs, ready, bad
 
 L == INSTANCE LLSetup
 
@@ -32,9 +32,10 @@ InstOf(r, s) == [sysid |-> r.sys, tof |-> r.tof, zero |-> r.zero, maxSeg |-> IF 
                  pHess |-> IF r.prior THEN r.pHess ELSE <<>>,
                  pApprox |-> IF r.prior THEN r.pApprox ELSE <<>>,
                  pEx |-> IF r.prior THEN r.pEx ELSE TRUE,
+                 lm |-> Has(r, "lm") /\ r.lm,      \* the list-mode objective function (second instance of the same definitions)
                  same |-> TRUE]
 
-Requests == {"Value", "Grad", "GradPlusSens", "Sens", "AddSens", "HessTimes", "ApproxHess"}
+Requests == {"Value", "Grad", "GradPlusSens", "Sens", "AddSens", "HessTimes", "ApproxHess", "ValueDiff"}
 SubOk(r) == r.sub \in -1..(I.N - 1)
 
 (* The normalisation object, whenever a request used it, had been set up, with the same kind   *)
@@ -94,6 +95,18 @@ ValueOk(r, w) ==       \* w = vs with this line's value added
         IF r.sub = -1 THEN Abs(w[<< FALSE, -1 >>] - w[<< TRUE, -1 >>] - I.pVal) <= 2
         ELSE Abs(I.N * (w[<< FALSE, r.sub >>] - w[<< TRUE, r.sub >>]) - I.pVal) <= 2 * I.N
 
+(* List-mode objective: the log-likelihood is documented "up to terms independent of ybar", so the   *)
+(* DIFFERENCE of the values at 2 lambda and at lambda is decided (no additive term: the means double):  *)
+(*     L(2 lambda) - L(lambda) = ln2 * SUM_b y_b  -  SUM_v lambda_v Sens(S)_v                           *)
+(* with the sensitivity the objective function reports for the subset.                                  *)
+NoAdditive == \A b \in 1..NB(sys) : I.a[b] = 0
+Counts(s) == Sum([b \in 1..NB(sys) |-> IF Sel(sys, I, m, b, s) /\ m.d[b] > 0 THEN I.y[b] ELSE 0])
+LamDotSens(s) == Sum([v \in 1..sys.nv |-> I.lam[v] * ReportedSens(sys, I, m, s, v)])      \* units 1/SC
+ValueDiffOk(r) ==
+  /\ I.lm /\ SubOk(r) /\ r.k = VK /\ Has(r, "val") /\ Has(r, "val2")
+  /\ (NoAdditive /\ ValueRange(Counts(r.sub)) /\ \A v \in 1..sys.nv : ReportedSensDefined(sys, I, m, r.sub, v)) =>
+        Abs((r.val2 - r.val) - (MulLn2(Counts(r.sub)) - LamDotSens(r.sub) * (2^VK \div SC))) <= ValueTol + 2
+
 NewVs(r) == IF r.e = "Value" /\ Has(r, "val") THEN (VKey(r) :> r.val) @@ vs ELSE vs
 
 (* the set-up bookkeeping after this line: a new object per Instance line; set_up (with the     *)
@@ -103,9 +116,17 @@ U == IF I = NoInst THEN FALSE ELSE I.fill # 0
 SameOf(r) == ~I.tof \/ r.tofSens
 FAfter(r) ==
   IF r.e = "Instance" THEN (IF Has(r, "reuse") /\ r.reuse THEN f ELSE L!Fresh("U"))    \* reuse: the same object is set up again
-  ELSE IF r.e = "SetUp" /\ I # NoInst THEN L!SetUpAll(f, SameOf(r), U, ~I.supplied, I.N)
-  ELSE IF r.e \in Requests /\ I # NoInst THEN L!Step(f, r.e, I.same, U, "doc")
-  ELSE f
+  ELSE IF r.e = "SetUp" /\ I # NoInst /\ ~I.lm THEN L!SetUpAll(f, SameOf(r), U, ~I.supplied, I.N)
+  ELSE IF r.e \in Requests /\ I # NoInst /\ ready /\ ~I.lm THEN L!Step(f, r.e, I.same, U, "doc")
+  ELSE f          \* (a request refused because the object is not set up changes nothing)
+(* the set-up protocol: a new object is not set up; set_up makes it ready; a setter that changes the *)
+(* configuration (all recorded Setter lines do) makes it not ready again                             *)
+ReadyAfter(r) ==
+  IF r.e = "Instance" THEN (IF Has(r, "reuse") /\ r.reuse THEN ready ELSE FALSE)
+  ELSE IF r.e = "SetUp" THEN ~r.err /\ r.ok
+  ELSE IF r.e = "Setter" THEN L!ReadyAfterSetter(ready, r.name, TRUE)
+  ELSE IF r.e = "System" THEN FALSE
+  ELSE ready
 
 ShapeOk(r, s) ==
   /\ s # NoSys /\ r.sys = s.id /\ r.tof = s.tof
@@ -123,17 +144,39 @@ Explains(r) ==
             \A i \in 1..Len(r.normUse) :
                LET u == r.normUse[i] IN u[1] = 1 /\ u[2] = u[3] /\ (u[3] = 1) = (I.tof /\ L!NormNeed("AddSens", J.same))
          /\ L!Healthy(FAfter(r))
-    [] r.e \in Requests ->
+    [] r.e = "Setter" -> I # NoInst /\ r.name \in L!Setters
+    [] r.e \in Requests /\ ~ready ->                  \* not set up: the request must be refused
+         I # NoInst /\ r.e \in L!MustRefuse /\ r.err
+    [] r.e \in Requests /\ ready ->
          /\ I # NoInst
          /\ ~r.err                                   \* no order of requests may end in an error
          /\ L!Healthy(FAfter(r))
          /\ NormUseOk(r, r.e)
          /\ (r.e = "AddSens" => ~I.supplied)
-         /\ IF r.e = "Value" THEN Has(r, "val") /\ ValueOk(r, NewVs(r)) ELSE ImageOk(r, r.e)
+         /\ (I.lm => r.e \notin {"Value", "ApproxHess"} /\ ~r.pen)
+         /\ IF r.e = "Value" THEN Has(r, "val") /\ ValueOk(r, NewVs(r))
+            ELSE IF r.e = "ValueDiff" THEN ValueDiffOk(r)
+            ELSE ImageOk(r, r.e)
     [] r.e = "End" -> r.lines >= l - 1          \* (traces are validated in chunks: l counts from the chunk start)
     [] OTHER -> FALSE
 
-Init == l = 1 /\ sys = NoSys /\ I = NoInst /\ m = <<>> /\ f = L!Fresh("U") /\ vs = <<>> /\ bad = <<>>
+(* Known findings of the list-mode objective function (known_findings.jsonl): an unexplained line is  *)
+(* attributed to one only if it shows exactly that defect's signature; anything else is "new".         *)
+(*  C05-lm-value      the value is  - SUM y log d  (sign inverted, sensitivity term dropped):         *)
+(*                    L(2 lambda) - L(lambda) = - ln2 SUM y                                            *)
+(*  C05-lm-addsens    add_subset_sensitivity OVERWRITES its argument with the subset's sensitivity;   *)
+(*                    hence without use_subset_sensitivities the "total" is the last subset's only     *)
+Classify(r) ==
+  IF I = NoInst \/ ~I.lm \/ ~ready \/ ~(r.e \in Requests) \/ r.err \/ ~SubOk(r) THEN "new"
+  ELSE IF r.e = "ValueDiff" /\ Has(r, "val") /\ Has(r, "val2") /\ NoAdditive /\ ValueRange(Counts(r.sub))
+          /\ Abs((r.val2 - r.val) + MulLn2(Counts(r.sub))) <= ValueTol + 2 THEN "C05-lm-value"
+  ELSE IF r.e = "AddSens" /\ Has(r, "out") /\ Len(r.out) = sys.nv /\ r.sub >= 0 /\ r.ex /\ r.k = 4
+          /\ \A v \in 1..sys.nv : r.out[v] = Sens(sys, I, m, r.sub, v) THEN "C05-lm-addsens"
+  ELSE IF r.e = "Sens" /\ ~I.uss /\ I.N > 1 /\ Has(r, "out") /\ Len(r.out) = sys.nv /\ r.ex /\ r.k = 4
+          /\ \A v \in 1..sys.nv : r.out[v] * (IF r.sub = -1 THEN 1 ELSE I.N) = Sens(sys, I, m, I.N - 1, v) THEN "C05-lm-addsens"
+  ELSE "new"
+
+Init == l = 1 /\ sys = NoSys /\ I = NoInst /\ m = <<>> /\ f = L!Fresh("U") /\ vs = <<>> /\ ready = FALSE /\ bad = <<>>
 
 Next ==
   /\ l <= Len(TraceLog)
@@ -144,11 +187,14 @@ Next ==
              ELSE IF r.e = "System" THEN NoInst
              ELSE I
      /\ m' = IF r.e = "Instance" /\ ShapeOk(r, sys) THEN Memo(sys, InstOf(r, sys)) ELSE m
-     /\ vs' = IF r.e = "Instance" THEN <<>> ELSE IF I # NoInst THEN NewVs(r) ELSE vs
+     /\ vs' = IF r.e = "Instance" THEN <<>> ELSE IF I # NoInst /\ ready THEN NewVs(r) ELSE vs
      /\ f' = FAfter(r)
-     /\ bad' = IF Explains(r) THEN bad ELSE IF Len(bad) < 300 THEN Append(bad, << l, "new" >>) ELSE bad
+     /\ ready' = ReadyAfter(r)
+     /\ bad' = IF Explains(r) THEN bad
+               ELSE LET cls == Classify(r) IN
+                    IF Len(SelectSeq(bad, LAMBDA x : x[2] = cls)) < (IF cls = "new" THEN 300 ELSE 20) THEN Append(bad, << l, cls >>) ELSE bad
   /\ l' = l + 1
-Spec == Init /\ [][Next]_<<l, sys, I, m, f, vs, bad>>
+Spec == Init /\ [][Next]_<<l, sys, I, m, f, vs, ready, bad>>
 
 \* evaluated in the final state only (no successor): prints the unexplained lines
 Done == l > Len(TraceLog) => (bad = <<>> \/ PrintT(<<"UNEXPLAINED", bad>>))
